@@ -205,6 +205,35 @@ class DictV:
         self.items = dict(items)      # key (str | int) -> value
 
 
+class ObjList:
+    """List (symbolic length) of objects of one class, stored field-wise: scalar field f ->
+    array row -> value; list field f -> array row -> (array index -> value) plus f.len."""
+    def __init__(self, cls, arrays, length, ftypes):
+        self.cls = cls
+        self.arrays = dict(arrays)      # "f" / "f.len" -> z3 array
+        self.length = length
+        self.ftypes = dict(ftypes)      # field -> type descriptor
+
+
+class RowRef:
+    """opt[m]: one object of an ObjList (materialised on demand)."""
+    def __init__(self, lst, row, target):
+        self.lst = lst
+        self.row = row
+        self.target = target            # AST node naming the ObjList (for write-back)
+
+
+class PartialV:
+    def __init__(self, func, kwargs):
+        self.func = func
+        self.kwargs = dict(kwargs)
+
+
+class ListLit(tuple):
+    """A list literal of known length ([0, jmin]); behaves like a tuple until it is mutated
+    or havoc'd, when it is converted to a SymList."""
+
+
 class RangeV:
     def __init__(self, lo, hi, step=1):
         self.lo, self.hi, self.step = lo, hi, step
